@@ -12,6 +12,133 @@ use serde_json::json;
 
 pub struct Equiv;
 
+#[derive(Clone, Debug, serde::Serialize, serde::Deserialize)]
+pub enum EquivAny {
+    Small(GraphCase),
+    /// a union of many small components (20-200 arguments): the complete extensions are the products of
+    /// the components' complete extensions, so "same complete extensions" is decided exactly per component
+    Composite(crate::checks::composite::CompositeCase),
+}
+
+#[derive(Clone, PartialEq, Eq, Debug)]
+enum Sig {
+    InAll,
+    InNone,
+    Mixed(usize, Vec<bool>),
+}
+
+fn run_composite(case: &crate::checks::composite::CompositeCase, rec: &mut Rec) -> CheckResult {
+    use crate::checks::composite::{all_comps, attack_nodes, label_of, layout, text};
+    use crustabri::io::{AspartixReader, Iccma23Reader, InstanceReader};
+    let lay = layout(case);
+    if lay.n == 0 {
+        return Ok(());
+    }
+    rec.eval();
+    let comps = all_comps(case);
+    let fams: Vec<Fams> = comps.iter().map(|g| Fams::new(&G::new(g.n, &g.att_usize()))).collect();
+    let sig_of = |node: usize| -> Sig {
+        let (c, l) = lay.comp_of[node];
+        let v: Vec<bool> = fams[c].co.iter().map(|e| e & (1 << l) != 0).collect();
+        if v.iter().all(|b| *b) {
+            Sig::InAll
+        } else if v.iter().all(|b| !*b) {
+            Sig::InNone
+        } else {
+            Sig::Mixed(c, v)
+        }
+    };
+    let t = text(case);
+    let index: std::collections::HashMap<String, usize> = (0..lay.n).map(|i| (label_of(case, &lay, i), i)).collect();
+    // classes as node sets, and the class reached from every original argument
+    fn classes_of<T: LabelType>(af: &AAFramework<T>) -> Result<(Vec<Vec<String>>, Vec<(String, Vec<String>)>), String> {
+        guard(|| {
+            let ec = EquivalencyComputer::new(af);
+            let red = ec.reduced_af();
+            let classes: Vec<Vec<String>> =
+                red.argument_set().iter().map(|ra| ec.reduced_arg_to_init_args(ra).iter().map(|a| a.label().to_string()).collect()).collect();
+            let back: Vec<(String, Vec<String>)> = af
+                .argument_set()
+                .iter()
+                .map(|a| (a.label().to_string(), ec.reduced_arg_to_init_args(ec.init_to_reduced_arg(a)).iter().map(|x| x.label().to_string()).collect()))
+                .collect();
+            (classes, back)
+        })
+    }
+    let r = if case.apx {
+        let af = AspartixReader::default().read(&mut t.as_bytes()).map_err(|e| Failure::new("C19/composite/reader-rejected-generated-file", e.to_string()))?;
+        classes_of(&af)
+    } else {
+        let af = Iccma23Reader::default().read(&mut t.as_bytes()).map_err(|e| Failure::new("C19/composite/reader-rejected-generated-file", e.to_string()))?;
+        classes_of(&af)
+    };
+    let (classes, back) = r.map_err(|p| Failure::new("C19/composite/panic", format!("{}\n{}", p, t)))?;
+    let mut seen = vec![false; lay.n];
+    let mut class_of_node = vec![usize::MAX; lay.n];
+    for (k, c) in classes.iter().enumerate() {
+        if c.is_empty() {
+            return Err(Failure::new("C19/composite/empty-class", t.clone()));
+        }
+        let mut first: Option<Sig> = None;
+        for l in c {
+            let node = *index.get(l).ok_or_else(|| Failure::new("C19/composite/class-has-foreign-argument", l.clone()))?;
+            if seen[node] {
+                return Err(Failure::new("C19/composite/classes-overlap", format!("argument {}\n{}", l, t)));
+            }
+            seen[node] = true;
+            class_of_node[node] = k;
+            let sg = sig_of(node);
+            match &first {
+                None => first = Some(sg),
+                Some(f) => {
+                    if *f != sg {
+                        return Err(Failure::new(
+                            "C19/composite/merged-arguments-distinguished-by-a-complete-extension",
+                            format!("class {:?}: argument {} has {:?}, another member has {:?}\n{}", c, l, sg, f, t),
+                        ));
+                    }
+                }
+            }
+        }
+    }
+    if seen.iter().any(|b| !*b) {
+        return Err(Failure::new("C19/composite/classes-do-not-cover-all-arguments", t.clone()));
+    }
+    for (l, cls) in &back {
+        let node = index[l];
+        let k = class_of_node[node];
+        let mut a = cls.clone();
+        let mut b = classes[k].clone();
+        a.sort();
+        b.sort();
+        if a != b {
+            return Err(Failure::new("C19/composite/mappings-not-inverse", format!("argument {} maps to a class {:?} that is not its class {:?}\n{}", l, cls, classes[k], t)));
+        }
+    }
+    // grounded arguments together; arguments defeated by the grounded extension together
+    let grounded: Vec<usize> = (0..lay.n).filter(|i| sig_of(*i) == Sig::InAll).collect();
+    if let Some(g0) = grounded.first() {
+        if grounded.iter().any(|g| class_of_node[*g] != class_of_node[*g0]) {
+            return Err(Failure::new("C19/composite/grounded-extension-split-over-classes", t.clone()));
+        }
+    }
+    let atts = attack_nodes(case);
+    let defeated: Vec<usize> = (0..lay.n).filter(|i| atts.iter().any(|(a, b)| b == i && grounded.contains(a))).collect();
+    if let Some(d0) = defeated.first() {
+        if defeated.iter().any(|d| class_of_node[*d] != class_of_node[*d0]) {
+            return Err(Failure::new("C19/composite/defeated-arguments-split-over-classes", t.clone()));
+        }
+    }
+    rec.class(&format!("composite-n-{:03}+", (lay.n / 25) * 25));
+    if classes.iter().any(|c| c.len() > 4) {
+        rec.class("composite-class-with-more-than-4-members");
+    }
+    if rec.nontrivial(&serde_json::to_string(case).unwrap_or_default()) {
+        rec.sample(|| json!({"composite_framework_arguments": lay.n, "classes": classes.len(), "largest_class": classes.iter().map(|c| c.len()).max()}));
+    }
+    Ok(())
+}
+
 impl Equiv {
     fn run_generic<T: LabelType>(&self, af: &AAFramework<T>, labels: &[T], case: &GraphCase, rec: &mut Rec) -> CheckResult {
         let n = case.g.n;
@@ -119,35 +246,41 @@ impl Equiv {
 }
 
 impl Prop for Equiv {
-    type Case = GraphCase;
+    type Case = EquivAny;
     fn id(&self) -> &'static str {
         "C19"
     }
     fn rule(&self) -> String {
-        "Frameworks with compact ids (direct, ICCMA'23 reader keeping duplicate attack lines, Aspartix reader), <=10 (quick) / <=13 (thorough) arguments from the mixed-shape generator plus all digraphs on <=3 / <=4 arguments. Classes = reduced_arg_to_init_args of every argument of reduced_af(): they must partition the original arguments; init_to_reduced_arg(a)'s class contains a and is one of those classes; every class lies inside or outside each brute-force complete extension; the grounded extension and the set it defeats each lie within one class; no panic. Non-trivial: some class has >=2 members that are neither in the grounded extension nor defeated by it; distinct = (graph, presentation kind).".into()
+        "Frameworks with compact ids (direct, ICCMA'23 reader keeping duplicate attack lines, Aspartix reader), <=10 (quick) / <=13 (thorough) arguments from the mixed-shape generator plus all digraphs on <=3 / <=4 arguments. Classes = reduced_arg_to_init_args of every argument of reduced_af(): they must partition the original arguments; init_to_reduced_arg(a)'s class contains a and is one of those classes; every class lies inside or outside each brute-force complete extension; the grounded extension and the set it defeats each lie within one class; no panic. One case in 300 is a union of 3-30 small components (20-200 arguments, interleaved ids, optionally joined into one connected component through a defeated hub): complete extensions are products, so every class must consist of arguments with the same signature (in all / in none / same component and same membership vector over that component's complete extensions); partition, inverse mappings, grounded and defeated classes as above. Non-trivial: some class has >=2 members that are neither in the grounded extension nor defeated by it; distinct = (graph, presentation kind).".into()
     }
     fn assumptions(&self) -> Vec<String> {
         vec!["oracle.rs complete extensions".into(), "compact ids, as produced by the readers".into()]
     }
-    fn strategy(&self, tier: Tier) -> BoxedStrategy<GraphCase> {
+    fn strategy(&self, tier: Tier) -> BoxedStrategy<EquivAny> {
         let nmax = tier.pick(10, 13);
-        (gen::graph(nmax), gen::pres_compact(nmax)).prop_map(|(g, pres)| GraphCase { g, pres }).boxed()
+        let small = (gen::graph(nmax), gen::pres_compact(nmax)).prop_map(|(g, pres)| EquivAny::Small(GraphCase { g, pres }));
+        let composite = crate::checks::statics::composite_strategy(tier).prop_map(EquivAny::Composite);
+        prop_oneof![300 => small, 1 => composite].boxed()
     }
     fn n_cases(&self, tier: Tier) -> u32 {
         tier.pick(2_000_000, 20_000_000)
     }
-    fn enumerated(&self, tier: Tier) -> (Vec<GraphCase>, String) {
+    fn enumerated(&self, tier: Tier) -> (Vec<EquivAny>, String) {
         let max = tier.pick(3, 4);
         let mut v = vec![];
         for n in 0..=max {
             for g in gen::all_graphs(n) {
-                v.push(GraphCase { g: g.clone(), pres: Pres::Direct { offset: 0, order_keys: vec![] } });
-                v.push(GraphCase { g, pres: Pres::Iccma });
+                v.push(EquivAny::Small(GraphCase { g: g.clone(), pres: Pres::Direct { offset: 0, order_keys: vec![] } }));
+                v.push(EquivAny::Small(GraphCase { g, pres: Pres::Iccma }));
             }
         }
         (v, format!("all digraphs on 0..={} arguments, direct and ICCMA presentations", max))
     }
-    fn run(&self, case: &GraphCase, rec: &mut Rec) -> CheckResult {
+    fn run(&self, any: &EquivAny, rec: &mut Rec) -> CheckResult {
+        let case = match any {
+            EquivAny::Small(c) => c,
+            EquivAny::Composite(cc) => return run_composite(cc, rec),
+        };
         rec.class(&format!("pres-{}", case.pres.kind()));
         match build(case) {
             Built::U(af, labels) => self.run_generic(&af, &labels, case, rec),
